@@ -971,3 +971,11 @@ def edge_on_edges(a, b, curves):
         if cur >= 1:
             return True
     return cur >= 1
+
+
+def seg_vertical(ctrl, a, b):
+    """int over segment of x^a y^b dy (exact)."""
+    xs = bernstein_to_power([p[0] for p in ctrl])
+    ys = bernstein_to_power([p[1] for p in ctrl])
+    dy = [k * c for k, c in enumerate(ys)][1:] or [F(0)]
+    return pint01(pmul(pmul(ppow(xs, a), ppow(ys, b)), dy))
